@@ -8,7 +8,7 @@ kind, None-pattern of object a), never field values.
 import sys
 
 from vcommon import Run
-from xhair import Ob, run_obligations, replay_file
+from xhair import Ob, run_obligations, run_probes, replay_file
 
 H = 'C06_values.py'
 
@@ -144,6 +144,10 @@ def main():
         'objects are filtered on failing paths by re-running create()',
     ]
     run_obligations(run, obs)
+    # concrete companion (sampling, not a solver verdict; the immutability clause itself is not claimed): every
+    # pharmpy.modeling function that takes a model and needs no further argument (or has an entry in the harness's
+    # argument table) is called on three start models and a deep snapshot of the INPUT model must be unchanged
+    run_probes(run, [(Ob('no_mutation', 'C06_frame.py', 'no_mutation', env={}), 'no_mutation(8)')])
     for o in obs[:12]:
         run.sample(dict(obligation=o.name, harness=o.file, func=o.func, env=o.env))
     run.finish(coverage=dict(explanation=(
